@@ -363,7 +363,7 @@ class H(explore.Harness):
 
         generic = _c.canon(self.conn, depth=3, skip=("owner", "_loop", "_connect_lock", "pairing_data", "_connector"))
         return (tuple(sorted(self.rst_due.items())), prs, ts, conns, timers, self.partial is not None, len(self.loop._ready), self.preempt, tuple(self._seen_events()), self.conn.closing, self.conn.transport is None,
-                self.conn._concurrency_limit._value, len(self.net.pending()), generic)
+                self.conn._concurrency_limit._value, len(self.net.pending()), generic, _c.tasks_sig(self.loop))
 
     def finish(self):
         out = []
